@@ -1,5 +1,6 @@
 import FatVerif.Proofs.FileSimDirty
 import FatVerif.Proofs.FatSim
+import FatVerif.Proofs.FatImgBytes
 /-!
 # FileSim, part 8: the first FAT copy of the image as the byte array of the array-level FAT model
 
@@ -12,6 +13,10 @@ open FatVerif FatVerif.Fat
 /-- the bytes of the first FAT copy -/
 def fatArr (fs : FsState) (img : Img) : Array Nat :=
   ((List.range (fatSliceOf fs).size).map fun i => img.getByte ((fatSliceOf fs).beginOff + i)).toArray
+
+/-- the same array as `imgFatBytes` of Proofs/FatImgBytes.lean (the backward, image-level FAT specs of
+    Proofs/FatImg*.lean are stated on it) -/
+theorem fatArr_eq_imgFatBytes (fs : FsState) (img : Img) : fatArr fs img = imgFatBytes fs img := rfl
 
 @[simp] theorem fatArr_size (fs : FsState) (img : Img) : (fatArr fs img).size = (fatSliceOf fs).size := by
   simp [fatArr]
